@@ -220,7 +220,7 @@ def run_workloads(ctx, oracles, n_runs):
         for key, detail, rep in out["problems"]:
             ctx.violation(key, detail + " | sampler workload seed %d cfg %s" % (out["seed"], json.dumps(out["cfg"], sort_keys=True)), dict(rep, world="samplers"))
     if sum(excs.values()) > 0.25 * len(items):
-        raise runner.HarnessError("%d of %d sampler workloads raised outside phyclone/tree: %r (see C19)" % (sum(excs.values()), len(items), excs))
+        ctx.cannot_judge("%d of %d sampler workloads raised outside phyclone/tree: %r (see C19)" % (sum(excs.values()), len(items), excs))
     ctx.cov["evaluations"] += len(items)
     ctx.cov["distinct_nontrivial"] += sum(1 for o in res if o["stats"]["tree_calls"] > 20)
     ctx.cov["sampler_workload_runs"] = len(items)
